@@ -241,6 +241,15 @@ func FuzzC03(f *testing.F) { fuzzProp(f, "C03", propC03) }
 
 func propC03(t *rapid.T, r *vstat.Run) {
 	{
+		if rapid.IntRange(0, 7).Draw(t, "realistic") == 0 {
+			rs, in := drawFixtureLexCase(t)
+			if def, rej := newDef(rs); rej == "" {
+				r.Count("realistic_example_lexer")
+				c := newLexCase(rs, in)
+				report(t, r, checkC03(c, def, r), c)
+			}
+			return
+		}
 		g := lexgen.GenRuleSet(t, lexgen.RuleOpts{})
 		def, rej := newDef(g.RS)
 		if rej != "" {
@@ -383,6 +392,16 @@ func FuzzC07(f *testing.F) { fuzzProp(f, "C07", propC07) }
 
 func propC07(t *rapid.T, r *vstat.Run) {
 	{
+		if rapid.IntRange(0, 9).Draw(t, "realistic") == 0 {
+			rs, in := drawFixtureLexCase(t)
+			if def, rej := newDef(rs); rej == "" {
+				r.Count("realistic_example_lexer")
+				c := newLexCase(rs, in)
+				c.ExtraNext = rapid.SampledFrom([]int{0, 1, 3}).Draw(t, "extra")
+				report(t, r, checkC07(c, def, r), c)
+			}
+			return
+		}
 		g := lexgen.GenRuleSet(t, lexgen.RuleOpts{AllowUnderflow: true})
 		def, rej := newDef(g.RS)
 		if rej != "" {
@@ -534,6 +553,20 @@ func checkC16(c *lexCase, d *c16Defs, r *vstat.Run) outcome {
 
 func TestC16(t *testing.T) {
 	runProp(t, "C16", c16Rule, func(t *rapid.T, r *vstat.Run) {
+		if rapid.IntRange(0, 9).Draw(t, "realistic") == 0 {
+			rs, in := drawFixtureLexCase(t)
+			d, rej, o := buildC16(rs)
+			c := newLexCase(rs, in)
+			if o.failed() {
+				report(t, r, o, c)
+				return
+			}
+			if rej == "" {
+				r.Count("realistic_example_lexer")
+				report(t, r, checkC16(c, d, r), c)
+			}
+			return
+		}
 		g := lexgen.GenRuleSet(t, lexgen.RuleOpts{AllowUnderflow: false})
 		d, rej, o := buildC16(g.RS)
 		if o.failed() {
